@@ -284,11 +284,31 @@ pub fn inputs_c06(r: &mut Rng, n: usize, tier: &str, out: &mut dyn Write) {
                 let mut ts0: u64 = 2_272_060_800 + 86_400 * r.below(1000);
                 let mut off: u64 = r.below(20);
                 let mut probes = Vec::new();
+                // layout variations the IERS format allows ("A blank line should be ignored", comment lines anywhere,
+                // any run of blanks/tabs between the columns, an optional trailing comment)
+                if r.chance(1, 3) {
+                    txt.push('\n');
+                }
                 for _ in 0..k {
-                    txt.push_str(&format!("{}\t{}\t# x\n", ts0, off));
+                    match r.below(6) {
+                        0 => txt.push('\n'),
+                        1 => txt.push_str("#\tcomment 3692217600 37\n"),
+                        2 => txt.push_str("\n#h x\n\n"),
+                        _ => {}
+                    }
+                    let sep = *r.pick(&["\t", " ", "  ", "\t\t", " \t "]);
+                    let tail = *r.pick(&["\t# x", "", " # 1 Jan 1972", "\t#", " "]);
+                    txt.push_str(&format!("{}{}{}{}\n", ts0, sep, off, tail));
                     probes.push(ts0);
                     ts0 += 86_400 * (1 + r.below(2000));
                     off += 1;
+                }
+                match r.below(4) {
+                    0 => txt.push('\n'),
+                    1 => {
+                        txt.pop(); // no final newline
+                    }
+                    _ => {}
                 }
                 let p = (*r.pick(&probes) as i128) * SEC + small_off(r);
                 writeln!(out, "lsfile_lookup {} {}:TAI", str2hex(&txt), dstr(p)).unwrap()
